@@ -265,6 +265,7 @@ func constantString(k *ssa.Const) string {
 
 func runC47(c *Ctx) {
 	c47RegexpGroups(c)
+	c47HopPredicateParse(c)
 	pp := "private/path/pathpol."
 	if v := c.View("(*" + pp + "ACL).Eval"); v != nil {
 		filterLoop(c, "F1-filter-loops", v, "arg0", func(l Lit, elem ssa.Value) bool {
